@@ -636,11 +636,13 @@ def string_flag(ctx, eff, core):
            "the decoded object is a local of the decoder and is gone when the message is formatted (not copied: %s)" % (miss or "none"))
     for f in eff.fn("quill::DynamicFormatArgStore::push_back", "A"):
         pu = f.calls(r"DynamicArgList::push<")
-        em = f.calls(r"DynamicFormatArgStore::emplace_arg<")
+        # the slot is written by the store's emplace_arg() helper or directly by _data.emplace_back() / push_back()
+        em = f.calls(r"DynamicFormatArgStore::emplace_arg<") + \
+            [c_ for c_ in f.calls(r"std::vector<.*>::(emplace_back|push_back)\b") if is_this_field(call_obj(c_), "_data")]
         if not pu:
             continue
         a0 = f.rec["params"][0]["did"]
-        ok = len(em) == 1 and any(x is pu[0] for x in walk(em[0]["args"][0])) and any(var_ref(y) == a0 for y in walk(pu[0]))
+        ok = len(em) == 1 and bool(em[0].get("args")) and any(x is pu[0] for x in walk(em[0]["args"][0])) and any(var_ref(y) == a0 for y in walk(pu[0]))
         k += 1
         if k <= 12:
             ctx.ob("C04.R6g", "DynamicFormatArgStore::push_back<%s>:slot-refers-to-the-owned-copy" % (f.rec.get("targs") or ["?"])[0][:50], ok,
